@@ -510,9 +510,9 @@ func checkSetProtocol(r *Reporter, p *Prog) {
 		if rt == nil || rt.Obj().Name() != "OrderedMap" {
 			return "", false
 		}
-		switch fn.Name() {
+		switch funcName(fn) {
 		case "Set", "Delete", "Clear":
-			return fn.Name(), true
+			return funcName(fn), true
 		}
 		return "", false
 	}
